@@ -246,6 +246,30 @@ PROPS = {
                         "tail bits clear, every newline bit is a marker bit, < 2^32 markers)",
                         "Dsv/DsvRef::row and rows() wrappers (two-line compositions of goto_row / DsvRows::new) are not extracted"],
     },
+    "C08": {
+        "level": "proof",
+        "explanation": "Verus proves, on the text of the real recursive-descent validator extracted from src/json/validate.rs on every "
+                       "run (23 functions: peek/advance/skip_whitespace/skip_digits, validate_keyword, validate_number, "
+                       "validate_unicode_escape, validate_escape, validate_utf8_char, validate_string, enter_nested, validate_value, "
+                       "validate_array(_inner), validate_object(_inner), Validator::new, Validator::validate and the public free fn "
+                       "validate), that each production function returns Ok exactly when the independent grammar function of the same "
+                       "production (num_end, kw_end, esc_end incl. surrogate pairing, wf_len = Unicode Table 3-7, str_end, value_end / "
+                       "arr_body / elems_end / obj_body / members_end with the 128-container cap) is defined at the current offset, and "
+                       "then stops exactly at the offset that function gives; the top-level obligation is "
+                       "`validate(input).is_ok() == json_text(input)` for every byte string (json_text = ws value ws covering the whole "
+                       "input, nesting depth counted per open container, refused beyond 128). Termination of the mutually recursive "
+                       "validator is proved (lexicographic measure: remaining bytes, then call-graph rank). The grammar spec is checked "
+                       "against concrete accept/reject documents by `by (compute)` so it is neither vacuous nor trivial.",
+        "trusted_base": COMMON_TRUST + ["Verus 0.2026.09.13 + Z3", "the spec functions in verus/c08_validate.toml are the reading of RFC 8259 sections 2-7 and of Unicode Table 3-7 used as the oracle"],
+        "assumptions": ["rule E1: error payloads dropped (`self.error(Kind{..})` -> position-only error); WHICH error kind is reported is not under contract",
+                        "second sentence of the property (error offset not beyond the longest viable prefix) is NOT decided: it needs a constructive "
+                        "completion argument for every viable prefix that was not built; only `offset <= len` is proved for error positions",
+                        "keyword / number lookahead: the spec rejects `nullx` / `01` at the token (as the code does) instead of at the following "
+                        "byte; both readings reject the same documents because no JSON text continues a literal with a letter or a number 0 with a digit",
+                        "input.len() <= 2^62; usize is 64 bits",
+                        "Iterator::position in skip_digits replaced by a stub with its documented meaning (R4)",
+                        "the `succinctly json validate` CLI wrapper (file IO, exit codes) is not under contract"],
+    },
     "C32": {
         "level": "proof",
         "explanation": "Verus proves on the extracted text of SimpleJsonIndex, for documents of every length: ib_rank1 / ib_select1 and "
